@@ -174,6 +174,13 @@ def enum_units(tier, seed):
     extra.append([org, {"k": "scope", "n": "sc_l", "b": [lab("lb_x"), db(L(1))]}, dl("sc_l.lb_x"),
                   {"k": "for", "v": "i_0", "lo": L(0), "hi": L(2), "b": [db(L(0xF0)), {"k": "scope", "n": "sc_l", "b": [db(L(2)), lab("lb_x"), {"k": "const", "n": "k_x", "e": L(7), "eager": True}]}, dl("sc_l.lb_x")]},
                   dl("sc_l.lb_x"), {"k": "block", "b": [{"k": "for", "v": "i_1", "lo": L(0), "hi": L(1), "b": [{"k": "scope", "n": "sc_l", "b": [db(L(3)), lab("lb_x")]}]}, dl("sc_l.lb_x")]}])
+    # a `=` definition whose value uses a name that its own scope defines as a label further down, while a constant of that name is
+    # known further out: the value is built from the label (the nearest definition), in a block, a named scope and a macro body
+    for wrapk in ("block", "named", "macro"):
+        body = [{"k": "const", "n": "kx_p", "e": ["bin", "+", ["id", "kx_w"], L(1)], "eager": False}, dl("kx_p"), db(L(0x5A)), lab("kx_w"), db(L(0xAA))]
+        wrap = [{"k": "block", "b": body}] if wrapk == "block" else [{"k": "scope", "n": "sc_t", "b": body}, dl("sc_t.kx_p")] if wrapk == "named" else \
+               [{"k": "macro", "n": "m_w", "ps": [], "b": body}, {"k": "call", "n": "m_w", "args": []}]
+        extra.append([{"k": "const", "n": "kx_w", "e": L(0x1234), "eager": True}, org] + wrap + [dl("kx_w")])
     for i, ir in enumerate(extra):
         cases.append({"rom": "low", "files": {}, "ir": ir, "twin_seed": 100 + i})
     return {"units": [{"cases": cases[i::8]} for i in range(8)], "exhaustive": False}
